@@ -10,3 +10,11 @@ open Model.C11
 #print axioms faulty_result_computed
 #print axioms partial_result_sound
 #print axioms cancel_stops_dispatch
+#print axioms sync_no_deadlock
+#print axioms sync_bounded
+#print axioms sync_at_return
+#print axioms sync_exclusion
+#print axioms slot_released_under_mutex_deadlocks
+#print axioms sync_shape_exact
+#print axioms slot_released_before_mutex
+#print axioms timeout_wraps_the_load
